@@ -17,6 +17,7 @@ import (
 )
 
 type Obligation struct {
+	Axioms map[string]bool // names of the axiom schemas handed to the solver with this obligation
 	Name   string
 	Fn     string
 	Kind   string
